@@ -219,17 +219,15 @@ example : ((runNested (nestItemsAt (.cart 1) 2 [5] [7])
     dot-product scatter plus non-scattered inputs). `WFNestD Pi M plains S`: `Pi ≥ 1`, ports below `M`, the tokens of
     the inner ports form a well-formed stream of the dot product (`WFDot Pi`), all tags rooted at `0`, no repeated
     event, the other tokens arrive on the listed plain ports, on every plain port no tag is a prefix of another.
-    `derivedSpecD Pi plains S` — a function of the stream only — lists the elements the outer dot product should
-    combine: the specified emissions of the inner dot product (entries in port order) and the plain tokens. For
-    every arrival order there is a stream `D` of elements (what the outer combinator is actually fed: the inner
-    schemas come in dict order) which, after sorting the entries of every element by port (`canonEv M`), is a
-    permutation of `derivedSpecD`, and the emitted schemas are, each up to the order of its entries, exactly one
-    combination per complete tag of `D` (`specE`); the nested run raises nothing. -/
+    `derivedSpecD items i0 Pi S` — a function of the stream only — lists the elements the outer dot product combines:
+    the specified emissions of the inner dot product (entries in port order) and the plain tokens. For every arrival
+    order the nested run raises nothing and the emitted schemas are, each up to the order of its entries (the inner
+    schemas reach the outer combinator in dict order), exactly one combination per complete tag of `derivedSpecD`
+    (`specE`): the composition of the two rules, the same multiset for every order. -/
 theorem nested_dot_any_order (Pi M : Nat) (plains : List Nat) (items : List Item) (i0 : Nat)
     (hs : Shape items i0 .dot Pi plains) (S es : List Ev) (hwf : WFNestD Pi M plains S) (hperm : es.Perm S) :
     (runNested items es).err = none ∧
-    ∃ D N, (D.map (canonEv M)).Perm (derivedSpecD items i0 Pi S) ∧
-      EmRel (runNested items es).out N ∧ N.Perm (specE items.length D) :=
+    ∃ N, EmRel (runNested items es).out N ∧ N.Perm (specE items.length (derivedSpecD items i0 Pi S)) :=
   Comb.nested_dot_any_order hs S es hwf hperm
 
 /-- non-vacuity: inner dot product over ports 0, 1 (tags `0.0`, `0.1` on both), the broadcast token `0` on plain port 2 -/
